@@ -512,7 +512,7 @@ func analyzeCompactions(trace []simrt.Event) (vs []dbViolation, partial, cycles,
 }
 
 // analyzeResources replays open/close and mmap/munmap events and checks that descriptors plus mappings stay
-// within 3 x (table folders on disk) + 8 at every instant (loose constants: only growth with the number of
+// within 4 x (table folders on disk) + 16 at every instant (loose constants: only growth with the number of
 // flush / compaction cycles can cross them).
 func analyzeResources(trace []simrt.Event) (vs []dbViolation, maxExcess int) {
 	dirs := map[string]bool{}
@@ -544,10 +544,10 @@ func analyzeResources(trace []simrt.Event) (vs []dbViolation, maxExcess int) {
 				handles, maps = 0, 0
 			}
 		}
-		if x := handles + maps - (3*len(dirs) + 8); x > maxExcess {
+		if x := handles + maps - (4*len(dirs) + 16); x > maxExcess {
 			maxExcess = x
 			if x > 0 {
-				vs = append(vs, dbViolation{"resources|unbounded-while-open", fmt.Sprintf("at event #%d: %d descriptors + %d mappings open with %d table folders on disk (bound 3*tables+8)", e.Seq, handles, maps, len(dirs))})
+				vs = append(vs, dbViolation{"resources|unbounded-while-open", fmt.Sprintf("at event #%d: %d descriptors + %d mappings open with %d table folders on disk (bound 4*tables+16)", e.Seq, handles, maps, len(dirs))})
 				return
 			}
 		}
